@@ -12,7 +12,9 @@
 //!
 //! Obligation names carry the input class the property's quantifier names, so that different causes do not share a name:
 //!  `mem-` / `reload-` (in memory / through save_to + load_mem), `-user` / `-owner` (which password), `-over127` (a password
-//!  longer than the 127-byte limit of revisions 5/6), `-nonlatin` (the wrong password differs from a real one only by
+//!  longer than the 127-byte limit of revisions 5/6), `-over127-splitchar` (such a password whose byte 127, the first one cut
+//!  off, lies inside a multi-byte character: the cut is made in bytes, not in characters; on `wrong-password-rejected`: the wrong
+//!  password is such a password cut before that character), `-nonlatin` (the wrong password differs from a real one only by
 //!  characters PDFDocEncoding cannot represent, revisions 2-4), `stream-dict-string-encrypted` (ISO: strings in stream
 //!  dictionaries are strings of the file; F19), `metadata-dict-string-encrypted` (only the Metadata *stream* is exempt).
 //!  Panics are caught per call (`catch`, with a silent hook installed once for the whole run because cases run on rayon
@@ -242,6 +244,60 @@ fn password_pairs() -> Vec<(String, String)> {
         (a130, b130),
         (format!("{}u", c127), format!("{}o", c127)),
     ]
+}
+
+/// Characters of 2, 3 and 4 UTF-8 bytes that SASLprep (RFC 4013: NFKC, the mapping tables, the prohibited and the
+/// Unicode 3.2 unassigned tables) leaves alone, so the password the handler truncates is byte for byte the one built here:
+/// CYRILLIC SMALL LETTER PE, the CJK ideograph U+65E5, the CJK extension B ideograph U+20000.
+const WIDE: [char; 3] = ['\u{43f}', '\u{65e5}', '\u{20000}'];
+
+/// Revisions 5 and 6 use the first 127 bytes of the UTF-8 form of a password (ISO 32000-2 algorithms 2.A, 8, 9, 11, 12).
+/// A password of the boundary family is `lead` (one ASCII byte that tells the user from the owner password), the fewest
+/// ASCII digits that make the lengths fit, and characters `ch` of w = 2..4 bytes, laid out so that byte 127 - the first
+/// byte that is cut off - is byte `phase` (0 <= phase < w) of a character; phase 0 puts the cut between two characters,
+/// any other phase inside one.  `extra` more characters follow the character that holds byte 127.
+fn boundary_password(lead: char, ch: char, phase: usize, extra: usize) -> String {
+    let w = ch.len_utf8();
+    assert!(lead.is_ascii() && w >= 2 && phase < w);
+    let start = 127 - phase; // where the character that holds byte 127 begins
+    let pad = (start - 1) % w;
+    let mut s = String::new();
+    s.push(lead);
+    s.push_str(&"0123"[..pad]);
+    for _ in 0..(start - 1 - pad) / w + 1 + extra { s.push(ch); }
+    assert!(s.len() == start + w * (1 + extra) && s.len() > 127 && s.is_char_boundary(start) && (phase == 0) == s.is_char_boundary(127));
+    s
+}
+
+/// the limit itself: exactly 127 bytes ending in a complete character of w bytes, nothing is cut off
+fn at_limit_password(lead: char, ch: char) -> String {
+    let w = ch.len_utf8();
+    let pad = 126 % w;
+    let mut s = String::new();
+    s.push(lead);
+    s.push_str(&"0123"[..pad]);
+    for _ in 0..(126 - pad) / w { s.push(ch); }
+    assert!(s.len() == 127);
+    s
+}
+
+/// Password pairs around the 127-byte limit of revisions 5 and 6 made of multi-byte characters (used with R5 and V5 only:
+/// revisions 2-4 refuse every character outside PDFDocEncoding and cut after 32 single-byte codes, which the shared pairs cover).
+/// Every (width, phase) is enumerated for both roles; quick: the user password ends with the character holding byte 127, the
+/// owner password has 5 more; thorough: both tails for both roles, and each long password also beside a short ASCII one.
+fn boundary_pairs(thorough: bool) -> Vec<(String, String)> {
+    let mut out: Vec<(String, String)> = vec![];
+    for ch in WIDE {
+        let w = ch.len_utf8();
+        out.push((at_limit_password('u', ch), at_limit_password('o', ch)));
+        for phase in 0..w {
+            out.push((boundary_password('u', ch, phase, 0), boundary_password('o', ch, phase, 5)));
+            if thorough { out.push((boundary_password('u', ch, phase, 5), boundary_password('o', ch, phase, 0))); }
+            if thorough || phase == 1 { out.push((boundary_password('u', ch, phase, 0), "owner".into())); }
+            if thorough || phase == w - 1 { out.push(("user".into(), boundary_password('o', ch, phase, 0))); }
+        }
+    }
+    out
 }
 
 fn handlers(thorough: bool) -> Vec<Handler> {
@@ -479,13 +535,21 @@ fn pdfdoc_ok(c: char) -> bool { (' '..='~').contains(&c) || ('\u{a1}'..='\u{ff}'
 fn strip_nonlatin(s: &str) -> String { s.chars().filter(|c| pdfdoc_ok(*c)).collect() }
 fn has_nonlatin(s: &str) -> bool { s.chars().any(|c| !pdfdoc_ok(c)) }
 
+/// for a password of more than 127 bytes whose byte 127 lies inside a character: the password up to the start of that character
+fn cut_before_split_char(p: &str) -> Option<&str> {
+    if p.len() > 127 && !p.is_char_boundary(127) { (0..127).rev().find(|i| p.is_char_boundary(*i)).map(|cut| &p[..cut]) } else { None }
+}
+
 /// passwords that are neither the user nor the owner password, and that differ from both inside the significant prefix
 /// (32 bytes for revisions 2-4, 127 for 5-6), so truncation cannot make them equal
-fn wrong_passwords(user: &str, owner: &str) -> Vec<String> {
+fn wrong_passwords(h: &Handler, user: &str, owner: &str) -> Vec<String> {
     let mut c: Vec<String> = vec!["wrong".into(), "\u{43d}\u{435}\u{432}\u{435}\u{440}\u{43d}\u{43e}".into()];
     if !user.is_empty() && !owner.is_empty() { c.push(String::new()); }
     for p in [user, owner] {
         if p.chars().count() < 20 { c.push(format!("{}x", p)); } else { let mut s: String = "#".into(); s.extend(p.chars().skip(1)); c.push(s); }
+        // revisions 5/6 use exactly the first 127 bytes: when byte 127 lies inside a character, the password that stops before
+        // that character is shorter than the significant prefix (it lacks the character's leading bytes), hence a different password
+        if !h.legacy() { if let Some(q) = cut_before_split_char(p) { c.push(q.to_string()); } }
     }
     let mut out: Vec<String> = vec![];
     for w in c { if w != user && w != owner && !out.contains(&w) { out.push(w); } }
@@ -505,23 +569,33 @@ fn case_json(c: &Case, obligation: &str) -> Value {
 /// decrypt `enc` (a clone) with a password that must be accepted and compare with the original
 fn expect_decrypts(h: &Handler, orig: &Document, enc: &Document, enc_id: Option<(u32, u16)>, pw: &str, strict: bool, tag: &str, f: &mut Fails) {
     // the quantifier names passwords longer than 127 bytes (the truncation limit of revisions 5 and 6) as a class of its own
-    let tag = &if !h.legacy() && pw.len() > 127 { format!("{}-over127", tag) } else { tag.to_string() };
+    // and, among those, the passwords whose 128th byte (the first one cut off) lies inside a multi-byte character
+    let split = !h.legacy() && pw.len() > 127 && !pw.is_char_boundary(127);
+    let tag = &if split { format!("{}-over127-splitchar", tag) } else if !h.legacy() && pw.len() > 127 { format!("{}-over127", tag) } else { tag.to_string() };
+    let class = if split {
+        let start = (0..127).rev().find(|i| pw.is_char_boundary(*i)).unwrap_or(0);
+        let ch = pw[start..].chars().next().unwrap();
+        format!(" (password {:?}: {} bytes of UTF-8, revision {} uses the first 127, which end after byte {} of the {}-byte character U+{:04X})", short(pw), pw.len(), h.v_r().1, 127 - start, ch.len_utf8(), ch as u32)
+    } else if !h.legacy() && pw.len() > 127 { format!(" (password {:?}, revision {} uses its first 127 bytes)", short(pw), h.v_r().1) } else { String::new() };
     let mut d = enc.clone();
     match catch(|| d.decrypt(pw)) {
-        Err(p) => push(f, "no-panic", format!("{}: decrypt panicked: {}", tag, p)),
+        Err(p) => push(f, "no-panic", format!("{}: decrypt panicked: {}{}", tag, p, class)),
         // same obligation as a wrong result: with a wrongly derived key the library answers Err (bad AES padding) or Ok with garbage
         // depending on random IV bytes, the case must fail under one stable name
-        Ok(Err(e)) => push(f, &format!("{}-restores", tag), format!("decrypt with the correct password failed: {}", e)),
+        Ok(Err(e)) => push(f, &format!("{}-restores", tag), format!("decrypt with the correct password failed: {}{}", e, class)),
         Ok(Ok(())) => check_restored(orig, &d, enc_id, strict, tag, f),
     }
 }
 
 fn expect_rejects(h: &Handler, enc: &Document, user: &str, owner: &str, tag: &str, f: &mut Fails) {
-    for w in wrong_passwords(user, owner) {
+    for w in wrong_passwords(h, user, owner) {
         // under revisions 2-4 the password goes through PDFDocEncoding; a password that differs from the real one only by
         // characters outside that encoding is reported under its own obligation name
         let collides = h.legacy() && (has_nonlatin(&w) || has_nonlatin(user) || has_nonlatin(owner)) && (strip_nonlatin(&w) == strip_nonlatin(user) || strip_nonlatin(&w) == strip_nonlatin(owner));
-        let suffix = if collides { "-nonlatin" } else { "" };
+        // revisions 5/6: a real password of more than 127 bytes cut before the character that holds byte 127 (see wrong_passwords)
+        let floor_of = |p: &str| !h.legacy() && cut_before_split_char(p) == Some(w.as_str());
+        let floored = floor_of(user) || floor_of(owner);
+        let suffix = if collides { "-nonlatin" } else if floored { "-over127-splitchar" } else { "" };
         let mut d = enc.clone();
         match catch(|| d.decrypt(&w)) {
             Err(p) => push(f, "no-panic", format!("{}: decrypt with a wrong password panicked: {}", tag, p)),
@@ -529,7 +603,8 @@ fn expect_rejects(h: &Handler, enc: &Document, user: &str, owner: &str, tag: &st
                 // a password colliding with the owner password only is accepted and then decrypts with a wrongly derived key: Ok is the
                 // certain outcome only if no AES data is met (otherwise Err, except when a wrong key survives unpadding); record the certain ones
                 let certain = !collides || strip_nonlatin(&w) == strip_nonlatin(user) || !enc.objects.values().any(|o| may_be_aes(h, o));
-                if certain { push(f, &format!("{}-wrong-password-rejected{}", tag, suffix), format!("decrypt({:?}) returned Ok although the user password is {:?} and the owner password is {:?}", w, short(user), short(owner))); }
+                if certain { push(f, &format!("{}-wrong-password-rejected{}", tag, suffix), format!("decrypt({:?}) returned Ok although the user password is {:?} and the owner password is {:?}{}", short(&w), short(user), short(owner),
+                    if floored { format!(" (the accepted password has {} bytes: a real password cut before the character that holds byte 127, not its 127 significant bytes)", w.len()) } else { String::new() })); }
             }
             Ok(Err(_)) => {
                 if d.objects != enc.objects || d.trailer != enc.trailer {
@@ -745,6 +820,21 @@ fn configs(thorough: bool) -> Vec<Config> {
             }
         }
     }
+    // the 127-byte boundary family of revisions 5/6: the password dimension, on the core documents (V5: the string alone)
+    let bps = boundary_pairs(thorough);
+    for h0 in handlers(thorough) {
+        if h0.legacy() { continue; }
+        let v5 = h0.kind == Kind::V5;
+        // V5: one permission set in both tiers (its hash, algorithm 2.B, costs several milliseconds for a 127-byte password)
+        let perms = if v5 { vec![PERM_ALL] } else if thorough { vec![PERM_ALL, 0, 0x14, 0x528] } else { vec![PERM_ALL, 0x14] };
+        for p in perms {
+            for (u, o) in &bps {
+                let mut h = h0.clone();
+                h.perms = p;
+                out.push(Config { h, user: u.clone(), owner: o.clone(), sel: if v5 { DocSel::Lit } else { DocSel::Core }, ids: SINGLE_IDS_QUICK, both_formats: false });
+            }
+        }
+    }
     if thorough {
         // family B: ordered pairs of alphabet objects, one password pair, all permissions
         for h0 in handlers(false) {
@@ -762,18 +852,26 @@ const BOUND: &str = "cases = (security handler, permission set, (user, owner) pa
 HANDLERS: V1; V2 with every key length 40,48..128; V4 with CF {FRc4:V2, FAes:AESV2, FId:Identity} and StmF x StrF over {FRc4,FAes,FId,/Identity (not in CF)} x EncryptMetadata {t,f}; \
 R5 and V5 (AES-256, CF {StdCF:AESV3, FId:Identity}) with StmF x StrF over {StdCF,FId} (thorough: + /Identity) x EncryptMetadata {t,f}, fixed 32-byte file key (thorough: + the all-zero key with StdCF/StdCF). \
 PERMISSIONS: {all, print+copy} (thorough: + none, modify+annotate+fill+assemble). \
-PASSWORDS: 12 pairs: both empty, empty user, empty owner, ASCII distinct, owner == user, Latin-1, Cyrillic, CJK user, 40-byte pair, pair sharing a 32-byte prefix, 130-byte pair, 128-byte pair sharing a 127-byte prefix. \
+PASSWORDS: 12 shared pairs: both empty, empty user, empty owner, ASCII distinct, owner == user, Latin-1, Cyrillic, CJK user, 40-byte pair, pair sharing a 32-byte prefix, 130-byte ASCII pair, 128-byte ASCII pair sharing a 127-byte prefix. \
+BOUNDARY PASSWORDS (R5 and V5 only, whose algorithms use the first 127 bytes of the SASLprep'd UTF-8 password): a password = 1 ASCII letter (u / o) + 0..3 ASCII digits + characters of one width w, \
+for w in {2 (U+043F), 3 (U+65E5), 4 (U+20000)} (all unchanged by SASLprep), laid out so that byte 127 (the first byte cut off) is byte `phase` of a character, for EVERY phase 0..w-1 (0 = cut between characters, \
+otherwise inside one), ending with that character (tail 0, 127+w-phase bytes) or 5 characters later (tail 5); plus the 127-byte password of each width (nothing cut off). \
+Quick, 18 pairs: per w the 127-byte pair; per (w, phase) (user tail 0, owner tail 5); per w (user phase 1 tail 0, \"owner\") and (\"user\", owner phase w-1 tail 0). \
+Thorough, 39 pairs: per w the 127-byte pair; per (w, phase) (user tail 0, owner tail 5), (user tail 5, owner tail 0), (user tail 0, \"owner\"), (\"user\", owner tail 0). \
 DOCUMENTS: each object of an alphabet of 25 (V1,V2), 27 (R5,V5) or 29 (V4) objects alone at id 7 3 (thorough, not V5: at each of 1 0, 7 3, 300 65535): empty/5/15/16/17/33-byte literal and hex strings, \
 strings nested in arrays and dictionaries to depth 3 beside names, numbers, null and (dangling) references, empty/5/15/16/300-byte binary streams, Metadata stream (also empty), stream with a string in its dictionary, \
 plain dictionaries of /Type /Metadata (top level and nested), XRef-typed stream, streams with /Filter /Crypt (name and array form) and DecodeParms /Name = each CF name (also with empty content) / missing / unknown / no DecodeParms; \
 one string at id 16777221 1 (memory only); the document holding the whole alphabet at sparse ids with generations 0 and 2 (R5/V5: also without /ID). \
-QUICK = handlers x permissions (V5: all only) x passwords x {33-byte string alone, whole-alphabet document} (V5: string only)  UNION  handlers x {all} x {(user, owner)} x all documents. \
-THOROUGH = handlers x permissions x passwords x all documents (V5, whose password hash costs ~1.5 ms: x {string alone, whole-alphabet document}, plus {all} x {(user, owner)} x all documents)  UNION  \
+QUICK = handlers x permissions (V5: all only) x shared passwords x {33-byte string alone, whole-alphabet document} (V5: string only)  UNION  handlers x {all} x {(user, owner)} x all documents  UNION  \
+{R5, V5 handlers} x permissions (V5: all only) x boundary passwords x {33-byte string alone, whole-alphabet document} (V5: string only). \
+THOROUGH = handlers x permissions x shared passwords x all documents (V5, whose password hash costs ~1.5 ms: x {string alone, whole-alphabet document}, plus {all} x {(user, owner)} x all documents)  UNION  \
+{R5, V5 handlers} x permissions (V5: all only) x boundary passwords x {33-byte string alone, whole-alphabet document} (V5: string only)  UNION  \
 quick-tier handlers (V5: StdCF/StdCF/EncryptMetadata only) x {all} x {(user, owner)} x all ordered pairs of alphabet objects as a two-object document (ids 2 0 and 9 1). \
-EACH CASE: EncryptionState::try_from, encrypt, model check of every string/stream ciphertext and of the encryption dictionary, in memory decrypt with the user password, the owner password and 3-5 wrong passwords \
-(a fixed ASCII word, a Cyrillic word, the empty string if neither password is empty, each password with one character appended or, if longer than 20 characters, its first character replaced), \
+EACH CASE: EncryptionState::try_from, encrypt, model check of every string/stream ciphertext and of the encryption dictionary, in memory decrypt with the user password, the owner password and 3-7 wrong passwords \
+(a fixed ASCII word, a Cyrillic word, the empty string if neither password is empty, each password with one character appended or, if longer than 20 characters, its first character replaced; \
+R5/V5: also each password of more than 127 bytes whose byte 127 lies inside a character, cut before that character - shorter than the 127 significant bytes, so a different password), \
 save (xref table; whole-alphabet document and thorough except V5: also xref stream) + load_mem + the same decrypts, or the auto-decrypt expectation when the user or owner password is empty. \
-NOT ENUMERATED: ObjStm-typed streams, documents whose max_id is below an existing id, passwords that SASLprep prohibits, documents without /ID under V1-V4 (the key derivation needs it), incremental saves";
+NOT ENUMERATED: ObjStm-typed streams, documents whose max_id is below an existing id, passwords that SASLprep prohibits or changes (where the 127-byte cut falls elsewhere in the prepared form than in the given one), boundary passwords mixing character widths, documents without /ID under V1-V4 (the key derivation needs it), incremental saves";
 
 pub fn run(thorough: bool) -> Report {
     let mut rep = Report::new(BOUND, true);
